@@ -70,6 +70,9 @@ impl Ev {
 pub struct Judge {
     pub evals: bool,
     pub streams: bool,
+    /// a panic while the library builds a function source (linear, spline, +, -, integral, ...) is a
+    /// violation (C16) rather than a discarded run (C03/C12, whose statements say nothing about it)
+    pub build: bool,
 }
 
 #[derive(Clone, Debug)]
@@ -169,10 +172,14 @@ pub fn execute(scn: &CursorScn, judge: Judge, cov: &mut Cov, prog: &Progress) ->
                 funcs.push(t);
             }
             Err(p) => {
+                if !judge.build {
+                    cov.hit("discard_function_source_panicked");
+                    return RunResult::Discard;
+                }
                 return RunResult::Violation {
                     class: "panic".into(),
                     detail: format!("building function {fi} ({}) panicked: {p}", spec.describe()),
-                }
+                };
             }
         }
     }
@@ -598,7 +605,10 @@ pub fn gen_scenario(rng: &mut Rng, profile: Profile, tier: Tier) -> CursorScn {
         _ => 3,
     };
     let allow_long = tier == Tier::Thorough || rng.chance(1, 4);
-    let funcs: Vec<FuncSpec> = (0..nfuncs).map(|_| gen_func(rng, allow_long)).collect();
+    // C16 also monitors "no operation panics on well-formed input": its base histories use
+    // library-produced function sources far more often.
+    let derived_pct = if profile == Profile::Mixed { 55 } else { 30 };
+    let funcs: Vec<FuncSpec> = (0..nfuncs).map(|_| gen_func(rng, allow_long, derived_pct)).collect();
     let steer: Vec<Vec<f64>> = funcs.iter().map(steering_ends).collect();
     let nclients = match rng.below(10) {
         0..=4 => 1,
@@ -785,6 +795,137 @@ fn nontrivial(scn: &CursorScn) -> bool {
         }
     }
     multi && per_client.iter().any(|&k| k >= 2)
+}
+
+// ---------------------------------------------------------------------------
+// Small scope: a finite universe of order types in which saturation is measurable
+// ---------------------------------------------------------------------------
+
+/// The small scope: one directly built function with 1-4 segments and finite ends, one evaluator,
+/// 1-4 finite queries and nothing else. Returns the canonical class (order type) of such a run.
+pub fn small_scope_class(scn: &CursorScn) -> Option<u64> {
+    if scn.funcs.len() != 1 || scn.clients.len() != 1 || scn.clients[0].kind != ClientKind::Eval {
+        return None;
+    }
+    let f = &scn.funcs[0];
+    if !f.is_direct() || !f.ops.is_empty() || f.post != crate::funcs::Post::None {
+        return None;
+    }
+    let n = f.ends.len();
+    let k = scn.events.len();
+    if !(1..=4).contains(&n) || !(1..=4).contains(&k) || f.ends.iter().any(|e| !e.is_finite()) {
+        return None;
+    }
+    let mut qs = Vec::with_capacity(k);
+    for ev in &scn.events {
+        match *ev {
+            Ev::Query { x, .. } if x.is_finite() => qs.push(x),
+            _ => return None,
+        }
+    }
+    let mut vals: Vec<f64> = f.ends.iter().copied().chain(qs.iter().copied()).collect();
+    vals.sort_by(|a, b| a.partial_cmp(b).unwrap());
+    vals.dedup_by(|a, b| a == b);
+    let rank = |x: f64| vals.partition_point(|&v| v < x) as u64;
+    let mut d = Digest::new();
+    d.word(n as u64);
+    for &e in &f.ends {
+        d.word(rank(e));
+    }
+    d.word(k as u64);
+    for &q in &qs {
+        d.word(rank(q));
+    }
+    Some(d.0)
+}
+
+/// Number of order types in the small scope, by enumeration: for n ends with m distinct values
+/// (C(n-1,m-1) tie patterns) and k queries, every assignment of the queries to the 2m+1 slots
+/// (equal to a distinct end, or inside one of the m+1 open intervals) times the number of weak
+/// orderings (Fubini numbers) of the queries sharing an open interval.
+pub fn small_scope_universe() -> u64 {
+    const FUBINI: [u64; 5] = [1, 1, 3, 13, 75];
+    let binom = |a: u64, b: u64| -> u64 { (0..b).fold(1u64, |acc, i| acc * (a - i) / (i + 1)) };
+    let mut total = 0u64;
+    for n in 1..=4u64 {
+        for m in 1..=n {
+            let patterns = binom(n - 1, m - 1);
+            for k in 1..=4u32 {
+                let slots = (2 * m + 1) as usize;
+                let mut w = 0u64;
+                let mut assign = vec![0usize; k as usize];
+                loop {
+                    let mut counts = vec![0usize; slots];
+                    for &a in &assign {
+                        counts[a] += 1;
+                    }
+                    // even slot indices are the open intervals, odd ones "equal to an end"
+                    w += counts.iter().enumerate().filter(|(i, _)| i % 2 == 0).map(|(_, &c)| FUBINI[c]).product::<u64>();
+                    let mut i = 0;
+                    loop {
+                        if i == assign.len() {
+                            break;
+                        }
+                        assign[i] += 1;
+                        if assign[i] < slots {
+                            break;
+                        }
+                        assign[i] = 0;
+                        i += 1;
+                    }
+                    if i == assign.len() {
+                        break;
+                    }
+                }
+                total += patterns * w;
+            }
+        }
+    }
+    total
+}
+
+/// A scenario drawn (nearly) uniformly from the small scope.
+pub fn gen_small_scope(rng: &mut Rng) -> CursorScn {
+    // weights roughly proportional to the number of order types per (n, k) cell
+    let n = 1 + rng.weighted(&[1, 3, 9, 27]);
+    let mut ends = Vec::with_capacity(n);
+    let mut x = 10.0;
+    for i in 0..n {
+        if i > 0 && rng.chance(2, 3) {
+            x += 10.0;
+        }
+        ends.push(x);
+    }
+    let mut distinct = ends.clone();
+    distinct.dedup();
+    let m = distinct.len();
+    let k = 1 + rng.weighted(&[1, 4, 16, 64]);
+    let events = (0..k)
+        .map(|_| {
+            let slot = rng.usize_in(0, 2 * m);
+            let x = if slot % 2 == 1 {
+                distinct[slot / 2]
+            } else {
+                let lo = if slot == 0 { distinct[0] - 10.0 } else { distinct[slot / 2 - 1] };
+                lo + 2.0 * rng.usize_in(1, 4) as f64
+            };
+            Ev::Query { c: 0, x }
+        })
+        .collect();
+    let coefs = (0..n).map(|i| vec![(i + 1) as f64]).collect();
+    CursorScn {
+        funcs: vec![FuncSpec {
+            kind: Kind::P(0),
+            ends,
+            coefs,
+            source: crate::funcs::Source::Direct,
+            other: None,
+            ops: vec![],
+            post: crate::funcs::Post::None,
+        }],
+        clients: vec![Client { func: 0, kind: ClientKind::Eval }],
+        events,
+    }
 }
 
 // ---------------------------------------------------------------------------
@@ -1124,18 +1265,42 @@ impl World for C03 {
     }
     fn default_runs(&self, tier: Tier) -> u64 {
         match tier {
-            Tier::Quick => 2_000_000,
-            Tier::Thorough => 100_000_000,
+            Tier::Quick => 6_000_000,
+            Tier::Thorough => 300_000_000,
         }
     }
     fn generate(&self, rng: &mut Rng, tier: Tier) -> CursorScn {
-        gen_scenario(rng, Profile::Evaluators, tier)
+        if rng.chance(1, 6) {
+            gen_small_scope(rng)
+        } else {
+            gen_scenario(rng, Profile::Evaluators, tier)
+        }
     }
     fn explore(&self, base: &CursorScn, _tier: Tier, cov: &mut Cov, prog: &Progress) -> Outcome<CursorScn> {
-        explore_plain(base, Judge { evals: true, streams: false }, cov, prog)
+        let out = explore_plain(base, Judge { evals: true, streams: false, build: false }, cov, prog);
+        if cov.enabled && out.violation.is_none() {
+            if let Some(c) = small_scope_class(base) {
+                cov.aux.insert(c);
+                cov.hit("small_scope_runs");
+            }
+        }
+        out
+    }
+    fn extra_coverage(&self, cov: &Cov, out: &mut Map<String, Value>) {
+        let universe = small_scope_universe();
+        out.insert(
+            "small_scope_saturation".into(),
+            json!({
+                "scope": "one directly built function with 1-4 segments (finite ends, any tie pattern), one evaluator, 1-4 finite queries, no restart",
+                "order_types_in_scope": universe,
+                "order_types_reached_by_this_run": cov.aux.len(),
+                "fraction": cov.aux.len() as f64 / universe as f64,
+                "note": "a measurement of reach, not the deciding step: the scope is sampled by the seeded generator (1/6 of the runs are drawn from it directly), not enumerated"
+            }),
+        );
     }
     fn check(&self, scn: &CursorScn, cov: &mut Cov, prog: &Progress) -> Option<(String, String)> {
-        check_plain(scn, Judge { evals: true, streams: false }, cov, prog)
+        check_plain(scn, Judge { evals: true, streams: false, build: false }, cov, prog)
     }
     fn rule(&self) -> String {
         format!("Each run: 1-3 seeded piecewise functions (29 piece types, 8 breakpoint patterns, library-produced sources), 1-4 PiecewiseEvaluator clients, 1-64 events (queries drawn from 17 seeded move kinds, evaluator restarts) scheduled by the PRNG; after every query the evaluator's answer is compared bit for bit with Piecewise::evaluate. {ORDER_RULE}")
@@ -1161,18 +1326,18 @@ impl World for C12 {
     }
     fn default_runs(&self, tier: Tier) -> u64 {
         match tier {
-            Tier::Quick => 2_000_000,
-            Tier::Thorough => 100_000_000,
+            Tier::Quick => 6_000_000,
+            Tier::Thorough => 300_000_000,
         }
     }
     fn generate(&self, rng: &mut Rng, tier: Tier) -> CursorScn {
         gen_scenario(rng, Profile::Streams, tier)
     }
     fn explore(&self, base: &CursorScn, _tier: Tier, cov: &mut Cov, prog: &Progress) -> Outcome<CursorScn> {
-        explore_plain(base, Judge { evals: false, streams: true }, cov, prog)
+        explore_plain(base, Judge { evals: false, streams: true, build: false }, cov, prog)
     }
     fn check(&self, scn: &CursorScn, cov: &mut Cov, prog: &Progress) -> Option<(String, String)> {
-        check_plain(scn, Judge { evals: false, streams: true }, cov, prog)
+        check_plain(scn, Judge { evals: false, streams: true, build: false }, cov, prog)
     }
     fn rule(&self) -> String {
         format!("Each run: 1-3 seeded piecewise functions, 1-4 evaluate_v streams fed through a simulator-owned lazy iterator (bursts of feeds, then pulls, interleaved across streams by the PRNG, with cancel/restart); per pull: exactly one input consumed, result compared bit for bit with pointwise evaluation (non-decreasing prefix) or with the segment selected for the running maximum (after a decrease). {ORDER_RULE}")
@@ -1275,15 +1440,15 @@ impl World for C16 {
     }
     fn default_runs(&self, tier: Tier) -> u64 {
         match tier {
-            Tier::Quick => 100_000,
-            Tier::Thorough => 3_000_000,
+            Tier::Quick => 300_000,
+            Tier::Thorough => 5_000_000,
         }
     }
     fn generate(&self, rng: &mut Rng, tier: Tier) -> CursorScn {
         gen_scenario(rng, Profile::Mixed, tier)
     }
     fn explore(&self, base: &CursorScn, tier: Tier, cov: &mut Cov, prog: &Progress) -> Outcome<CursorScn> {
-        let judge = Judge { evals: true, streams: false };
+        let judge = Judge { evals: true, streams: false, build: true };
         let total = c16_total(base, tier);
         let mut dig = Digest::new();
         for sub in 0..total {
@@ -1318,7 +1483,7 @@ impl World for C16 {
         c16_variant(base, sub, tier)
     }
     fn check(&self, scn: &CursorScn, cov: &mut Cov, prog: &Progress) -> Option<(String, String)> {
-        check_plain(scn, Judge { evals: true, streams: false }, cov, prog)
+        check_plain(scn, Judge { evals: true, streams: false, build: true }, cov, prog)
     }
     fn rule(&self) -> String {
         format!("Each evaluation is one seeded fault-free base history (1-16 events over evaluators and evaluate_v streams, as in C03/C12) plus ALL its single-fault variants: a NaN query (4 bit patterns: NAN, -NAN, signalling pattern, payload; thorough adds +-inf) inserted at every position 0..=len on every client; thorough also enumerates all position pairs of (NaN, then NaN | restart | +inf | -inf) for bases of <= 8 events. Every library call runs under catch_unwind; every non-NaN evaluator answer in every variant must equal Piecewise::evaluate bit for bit. counters.faulted_executions is the number of faulted histories executed. {ORDER_RULE} (counted over the faulted histories, the NaN being one more rank)")
